@@ -250,7 +250,7 @@ def rebuild(dim, real="double", datat=None, periodic=0, nx=2, ord_=None, exec_=0
     if ord_ is None:
         ord_ = periodic
     defs = {"DIM": dim, "NX": nx, "REALT": real, "ORD": ord_, "EXEC": exec_}
-    name = "t_rebuild_d%d_%s" % (dim, real)
+    name = "t_rebuild_d%d_%s" % (dim, real) + ("" if nx == 2 else "_nx%d" % nx)
     if datat:
         defs["DATAT"] = datat
         name += "_" + datat
@@ -512,3 +512,20 @@ def sched_real(dim=3):
 
 
 PROPS["C03"].jobs += [Job("realomp-d3", sched_real(3), quick=(2, 300, 100), thorough=(8, 2000, 100), env={"OMP_WAIT_POLICY": "passive"})]
+
+
+# ---- deep trees (cell indices beyond 32 bits) for the structural / lookup / exactly-once properties -----------------------------------------
+def deep_jobs(q, t, dims=(3, 2, 1, 4)):
+    return [Job("deep-d%d" % d, single(d), quick=(2 if d == 3 else 1, q, 100), thorough=(8, t, 100), args=["--deep", "1"]) for d in dims]
+
+
+PROPS["C16"].jobs += deep_jobs(150, 1500)
+PROPS["C07"].jobs += deep_jobs(150, 1500)
+PROPS["C01"].jobs += deep_jobs(100, 1000)
+PROPS["C06"].jobs += deep_jobs(100, 1000, dims=(3, 2))
+PROPS["C15"].jobs += deep_jobs(100, 1000, dims=(3, 1))
+
+# ---- more result values than data values per particle (Dim 1 / 2 without extra data: 1 resp. 2 data values, 3 result values) ----------------
+PROPS["C13"].jobs += [Job("rb-d1-nx0", rebuild(1, nx=0), quick=(2, 450, 100), thorough=(16, 3000, 100)), Job("rb-d2-nx0", rebuild(2, nx=0), quick=(2, 450, 100), thorough=(16, 3000, 100))]
+PROPS["C17"].jobs += [Job("rb-d1-nx0", rebuild(1, nx=0), quick=(2, 600, 100), thorough=(16, 3000, 100)), Job("rb-d2-nx0", rebuild(2, nx=0), quick=(1, 600, 100), thorough=(16, 3000, 100)),
+                      Job("d1-nx0", single(1, 0), quick=(1, 600, 100), thorough=(16, 3000, 100))]
